@@ -926,4 +926,149 @@ example : AabbValid (⟨⟨-1,-2,-3⟩, ⟨1,2,3⟩⟩ : Aabb ℚ) ∧ AabbMem (
     ¬ AabbMem (⟨⟨-1,-2,-3⟩, ⟨1,2,3⟩⟩ : Aabb ℚ) ⟨5, 0, 0⟩ ∧ (0:ℚ) ≤ 10 ∧ (10:ℚ) ≤ 1000 := by
   simp only [AabbValid, AabbMem]; norm_num
 
+/-! ## Aabb / Cuboid with normal (`clip_aabb_line`, `ray_aabb`) -/
+
+/-- an outward face normal is a unit vector strictly facing the ray -/
+theorem outwardFaceNormal_facing (b : Aabb K) (ray : Ray3 K) (t : K) (n : V3 K) (h : OutwardFaceNormal sq b ray t n) :
+    letI := fieldNum K sq
+    n.normSq = 1 ∧ n.dot ray.d < 0 ∧ OnFace b (rayPt sq ray t) := by
+  unfold OnFace
+  rcases h with ⟨rfl, h1, h2⟩ | ⟨rfl, h1, h2⟩ | ⟨rfl, h1, h2⟩ | ⟨rfl, h1, h2⟩ | ⟨rfl, h1, h2⟩ | ⟨rfl, h1, h2⟩ <;>
+    simp only [V3.normSq, V3.dot] <;> refine ⟨by ring, by linarith, ?_⟩ <;> simp [h2]
+
+/-- **Aabb::cast_local_ray_and_get_normal (`ray_aabb` over `clip_aabb_line`), `solid = true`.** Non-degenerate box,
+`0 ≤ max_toi ≤ Real::MAX`, any direction (zero components allowed): whenever the call returns (does not hit the
+`normal[-1]` panic of a zero direction), the reported time is the first parameter of `[0, max_toi]` in the box. -/
+theorem aabb_normalCast_solid_firstHit (big : K) (b : Aabb K) (ray : Ray3 K) (max : K) (hv : AabbStrict b)
+    (hmax0 : 0 ≤ max) (hmaxb : max ≤ big) (r : Option (Hit3 K)) :
+    letI := fieldNum K sq
+    b.castLocalRayAndGetNormal big ray max true = some r → FirstHit (AabbMem b) (rayPt sq ray) max (r.map (·.toi)) := by
+  intro hres
+  have hbig := le_trans hmax0 hmaxb
+  rcases aabbN_cases sq big b ray max true hv hbig r hres with ⟨st, inv, _, hc⟩ | ⟨rfl, hno⟩
+  · have inR : ∀ s, 0 ≤ s → s ≤ max → (AabbMem b (rayPt sq ray s) ↔ st.tmin ≤ s ∧ s ≤ st.tmax) := fun s h1 h2 =>
+      inv.iff s (le_trans (neg_nonpos.2 hbig) h1) (le_trans h2 hmaxb)
+    rcases hc with ⟨h1, _, h, rfl, ht⟩ | ⟨_, hs, _⟩ | ⟨_, hs, _⟩ | ⟨h1, h2, h, rfl, ht, _⟩ | ⟨h1, h2, rfl⟩
+    · simp only [Option.map_some, ht]
+      exact ⟨le_refl _, hmax0, (inR 0 (le_refl _) hmax0).2 ⟨h1.le, inv.nn⟩, fun s a c => absurd c (not_lt.2 a)⟩
+    · cases hs
+    · cases hs
+    · simp only [Option.map_some, ht]
+      refine ⟨h1, h2, (inR _ h1 h2).2 ⟨le_refl _, inv.le⟩, fun s a c hm => ?_⟩
+      have := (inR s a (le_trans c.le h2)).1 hm
+      linarith [this.1]
+    · intro s a c hm
+      have := (inR s a c).1 hm
+      linarith [this.1]
+  · exact fun s a c => hno s a (le_trans c hmaxb)
+
+/-- **Aabb::cast_local_ray_and_get_normal, origin outside the box (both `solid` flags).** First hit as above; a reported
+hit has `t > 0`, and its normal is either the outward unit normal `∓e_i` of a face plane through the hit point with the
+ray moving against it (so `n·d < 0`), or — when two slabs tie (edge/corner hit, `near_diag`) — the code's choice
+`−dir/|dir|`. -/
+theorem aabb_normalCast_outside (big : K) (b : Aabb K) (ray : Ray3 K) (max : K) (solid : Bool) (hv : AabbStrict b)
+    (hmax0 : 0 ≤ max) (hmaxb : max ≤ big) (r : Option (Hit3 K)) :
+    letI := fieldNum K sq
+    ¬ AabbMem b ray.o →
+    b.castLocalRayAndGetNormal big ray max solid = some r →
+    FirstHit (AabbMem b) (rayPt sq ray) max (r.map (·.toi)) ∧
+    ∀ h, r = some h → 0 < h.toi ∧ (OutwardFaceNormal sq b ray h.toi h.n ∨ h.n = ray.d.normalize.neg) := by
+  intro hout hres
+  have hbig := le_trans hmax0 hmaxb
+  rcases aabbN_cases sq big b ray max solid hv hbig r hres with ⟨st, inv, hpan, hc⟩ | ⟨rfl, hno⟩
+  · have inR : ∀ s, 0 ≤ s → s ≤ max → (AabbMem b (rayPt sq ray s) ↔ st.tmin ≤ s ∧ s ≤ st.tmax) := fun s h1 h2 =>
+      inv.iff s (le_trans (neg_nonpos.2 hbig) h1) (le_trans h2 hmaxb)
+    -- origin outside ⇒ tmin > 0
+    have hpos : 0 < st.tmin := by
+      by_contra hc'; push Not at hc'
+      apply hout
+      have := (inR 0 (le_refl _) hmax0).2 ⟨hc', inv.nn⟩
+      rwa [rayPt_zero] at this
+    rcases hc with ⟨h1, _⟩ | ⟨h1, _⟩ | ⟨h1, _⟩ | ⟨h1, h2, h, rfl, ht, hn⟩ | ⟨h1, h2, rfl⟩
+    · linarith
+    · linarith
+    · linarith
+    · refine ⟨?_, ?_⟩
+      · simp only [Option.map_some, ht]
+        refine ⟨h1, h2, (inR _ h1 h2).2 ⟨le_refl _, inv.le⟩, fun s a c hm => ?_⟩
+        have := (inR s a (le_trans c.le h2)).1 hm
+        linarith [this.1]
+      · intro h' hh; cases hh
+        refine ⟨by rw [ht]; exact hpos, ?_⟩
+        rw [hn, ht]
+        cases hdiag : st.nearDiag with
+        | true => right; simp only [clipNearN, hdiag, if_true]
+        | false =>
+          left
+          have hside := hpan.1 hdiag
+          have hok : NearOK b ray st.nearSide st.tmin := by
+            rcases inv.nside with ⟨h0, _⟩ | h
+            · exact absurd h0 hside
+            · exact h
+          exact clipNearN_outward sq b ray st hdiag hok
+    · exact ⟨fun s a c hm => by have := (inR s a c).1 hm; linarith [this.1], fun h hh => by cases hh⟩
+  · exact ⟨fun s a c => hno s a (le_trans c hmaxb), fun h hh => by cases hh⟩
+
+/-- **Aabb::cast_local_ray_and_get_normal, `solid = false`, origin in the box.** `Some h` ⇒ `h.toi ≤ max_toi`, the point
+is in the box, and either `h.toi = 0` (origin on the boundary, ray entering: this form reports the origin itself) or
+`h.toi` is the exit parameter (`[0,toi]` inside, nothing of `(toi, Real::MAX]` inside). `None` ⇒ the whole segment
+`[0,max_toi]` stays in the box (exit beyond `max_toi`) — the behaviour the time-only form lacked on the pinned tree. -/
+theorem aabb_normalCast_nonsolid_inside (big : K) (b : Aabb K) (ray : Ray3 K) (max : K) (hv : AabbStrict b)
+    (hmax0 : 0 ≤ max) (hmaxb : max ≤ big) (r : Option (Hit3 K)) :
+    letI := fieldNum K sq
+    AabbMem b ray.o →
+    b.castLocalRayAndGetNormal big ray max false = some r →
+    match r with
+    | some h => h.toi ≤ max ∧ AabbMem b (rayPt sq ray h.toi) ∧
+        (h.toi = 0 ∨ ((∀ s, 0 ≤ s → s ≤ h.toi → AabbMem b (rayPt sq ray s)) ∧
+                      ∀ s, h.toi < s → s ≤ big → ¬ AabbMem b (rayPt sq ray s)))
+    | none => ∀ s, 0 ≤ s → s ≤ max → AabbMem b (rayPt sq ray s) := by
+  intro hin hres
+  have hbig := le_trans hmax0 hmaxb
+  rcases aabbN_cases sq big b ray max false hv hbig r hres with ⟨st, inv, _, hc⟩ | ⟨rfl, hno⟩
+  · have inB : ∀ s, 0 ≤ s → s ≤ big → (AabbMem b (rayPt sq ray s) ↔ st.tmin ≤ s ∧ s ≤ st.tmax) := fun s h1 h2 =>
+      inv.iff s (le_trans (neg_nonpos.2 hbig) h1) h2
+    have h0 : st.tmin ≤ 0 := by
+      have hm : AabbMem b (rayPt sq ray 0) := by rw [rayPt_zero]; exact hin
+      exact ((inB 0 (le_refl _) hbig).1 hm).1
+    rcases hc with ⟨_, hs, _⟩ | ⟨h1, _, h2, h, rfl, ht, _⟩ | ⟨h1, _, h2, rfl⟩ | ⟨h1, h2, h, rfl, ht, _⟩ | ⟨h1, h2, rfl⟩
+    · cases hs
+    · simp only [ht]
+      refine ⟨h2, (inB _ inv.nn inv.hi).2 ⟨inv.le, le_refl _⟩, Or.inr ⟨fun s a c => ?_, fun s a c hm => ?_⟩⟩
+      · exact (inB s a (le_trans c inv.hi)).2 ⟨le_trans h0 a, c⟩
+      · have := (inB s (le_trans inv.nn a.le) c).1 hm
+        linarith [this.2]
+    · intro s a c
+      exact (inB s a (le_trans c hmaxb)).2 ⟨le_trans h0 a, le_trans c h2.le⟩
+    · have e : st.tmin = 0 := le_antisymm h0 h1
+      simp only [ht, e]
+      refine ⟨hmax0, ?_, Or.inl trivial⟩
+      rw [rayPt_zero]; exact hin
+    · linarith
+  · exfalso
+    exact hno 0 (le_refl _) hbig (by rw [rayPt_zero]; exact hin)
+
+
+/-- the edge/corner ("diag") normal `−dir/|dir|` is a unit vector facing the ray (lawful square root, `dir ≠ 0`) -/
+theorem diag_normal_facing (hs : LawfulSqrt sq) (d : V3 K) :
+    letI := fieldNum K sq
+    0 < d.normSq → d.normalize.neg.normSq = 1 ∧ d.normalize.neg.dot d < 0 := by
+  intro hd
+  have hw0 := hs.nonneg _ hd.le
+  have hww := hs.sq_mul _ hd.le
+  have hn : @V3.norm K (fieldNum K sq) d = sq (@V3.normSq K (fieldNum K sq) d) := rfl
+  simp only [V3.normalize, hn]
+  generalize sq (@V3.normSq K (fieldNum K sq) d) = w at *
+  have hwpos : 0 < w := by
+    rcases eq_or_lt_of_le hw0 with h | h
+    · rw [← h] at hww; linarith
+    · exact h
+  have hne : w ≠ 0 := ne_of_gt hwpos
+  obtain ⟨x, y, z⟩ := d
+  simp only [V3.normSq, V3.dot, V3.neg, V3.sdiv] at *
+  constructor
+  · field_simp; linarith
+  · have : -(x / w) * x + -(y / w) * y + -(z / w) * z = -((x * x + y * y + z * z) / w) := by field_simp; ring
+    rw [this]; exact neg_neg_of_pos (div_pos hd hwpos)
+
 end C04
